@@ -63,7 +63,12 @@ const (
 )
 
 var verifC18Addrs = func() []string {
-	a := []string{"192.0.2.1", "2001:db8::2", "192.0.2.3", "198.51.100.4", "2001:db8::5", "203.0.113.6", "192.0.2.7", "2001:db8::8"}
+	// The phantom is whatever STRING the caller passes (the probe dials exactly that string): the alphabet
+	// therefore holds, next to plain literals, spellings that are not plain IP literals - a zone-scoped
+	// link-local IPv6 address (two different zones/hosts), an IPv4 spelling with a leading zero and a host
+	// name.  All eight are different strings AND different addresses; the reference is per queried string
+	// (no two entries are spellings of one address, so nothing is assumed about spellings sharing an entry).
+	a := []string{"192.0.2.1", "fe80::18%eth0", "192.0.2.010", "198.51.100.4", "phantom-c18.example", "203.0.113.6", "fe80::19%eth1", "2001:db8::8"}
 	for i := len(a); i < verifC18MaxAddrs; i++ {
 		if i%3 == 0 {
 			a = append(a, fmt.Sprintf("2001:db8:18::%x", i))
